@@ -138,7 +138,7 @@ def coq_dep_closure(vfiles):
             continue
         seen.add(f)
         src = open(os.path.join(COQ, f)).read()
-        for m in re.finditer(r"From\s+CV\s+Require\s+(?:Import|Export)?\s*([^.]*(?:\.[A-Za-z_][^.\s]*)*)\.\s", src):
+        for m in re.finditer(r"From\s+CV\s+Require\s+(?:Import|Export)?\s*([A-Za-z0-9_.'\s]+?)\.(?=\s)", src):
             for mod in m.group(1).split():
                 todo.append(mod.replace(".", "/") + ".v")
     return sorted(seen)
